@@ -242,7 +242,7 @@ func checkC13(c *ctx) {
 		for _, p := range genPrograms(c.Seed+uint64(ci)*7919, "C13", nf, np, o, 1) {
 			p.AutoInstrument = false
 			rel := "g/" + p.Name
-			writeFile(filepath.Join(dir, rel, "p.go"), p.Source())
+			writeProgFiles(dir, rel, p)
 			pkgs = append(pkgs, &toolPkg{Rel: rel, Kind: "corpus", Feature: strings.Join(p.Features, ","), Files: []string{"p.go"}})
 		}
 		for i := 0; i < ns; i++ {
